@@ -58,6 +58,7 @@ impl InputEvent {
 //@ replace?[R-utf8] <<<String::from_utf8(t.to_vec())>>> => <<<string_from_utf8(t.to_vec())>>>
 //@ ensures
 //@ - self.event is Text && r is Some ==> xml_unescape(self.event->Text_0.raw()) == Some(r->Some_0@)     @@C19.content.decoded
+//@ - self.event is Text ==> (r is Some) == (xml_unescape(self.event->Text_0.raw()) is Some)     @@C19.content.decoded_whenever_possible
 //@end
 }
 
